@@ -1377,6 +1377,8 @@ class Gen:
         k = tint(self.kind())
         two = r.random() < 0.4
         it = self.iterator(k, two)
+        if not two and r.random() < 0.4:
+            it = self.iterator_both(k)
         if it.pkg > cx.pkg:
             return None
         n = self.trips(cx)
@@ -1422,6 +1424,40 @@ class Gen:
         P.add_func(f)
         setattr(self, key, f)
         return f
+
+
+def _both(self, k):
+    """func Both(n K) func(func(K) bool): an iterator built from two range-over-func loops over Seq (nested yields)"""
+    key = '_both_%s' % k[1]
+    if hasattr(self, key):
+        return getattr(self, key)
+    P = self.P
+    seq = self.iterator(k, False)
+    yty = P.sig([k], [BOOL])
+    ity = P.sig([yty], [])
+    f = Func('%sBoth%s' % (self.pfx, k[1]), max(self.cur_pkg, seq.pkg))
+    n = Var(P.slot(), 'n', k)
+    f.params, f.results = [n], [Var(P.slot(), 'r', ity)]
+    lit = Func('lit', f.pkg)
+    lit.is_lit = True
+    y = Var(P.slot(), 'yield', yty)
+    lit.params = [y]
+    x1, x2 = Var(P.slot(), 'x', k), Var(P.slot(), 'x', k)
+    l1 = RangeFunc('', [x1], Call(seq, [VarRef(n)]), [If([], Un('not', CallV(VarRef(y), [VarRef(x1)])), [Return([])], [])], P)
+    l2 = RangeFunc('', [x2], Call(seq, [VarRef(n)]),
+                   [If([], Bin('eq', Bin('rem', VarRef(x2), IntLit(k, 2)), IntLit(k, 1)), [Continue()], []),
+                    If([], Un('not', CallV(VarRef(y), [Bin('add', VarRef(x2), IntLit(k, 100))])), [Return([])], [])], P)
+    lit.body = [l1, l2]
+    P.add_func(lit, printed=False)
+    f.body = [Return([FuncLit(lit, ity)])]
+    f.cost, f.pure = 3, False
+    P.add_func(f)
+    setattr(self, key, f)
+    self.feat.add('range-func-nested-yield')
+    return f
+
+
+Gen.iterator_both = _both
 
 
 def is_simple(t):
